@@ -923,9 +923,16 @@ func (e *enumerator) Every(upd func(key uint64, oldV *Container, exists bool) (n
 		if write {
 			if nv == nil {
 				e.t.Delete(i.k)
-			} else {
-				e.q.d[e.i].v = nv
+				// The delete shifted the remaining items of this page down, or
+				// merged the page into a sibling and recycled it (another tree
+				// may be handed the page at any moment): the position is stale.
+				// Find the successor of the deleted key afresh.
+				f, _ := e.t.Seek(i.k)
+				*e = *f
+				f.Close()
+				continue
 			}
+			e.q.d[e.i].v = nv
 		}
 		// Any error returned would be stashed in e.err, and would come up
 		// on the next call.
